@@ -85,45 +85,130 @@ def check_accumulation(idx: Index, rep: Report):
                            reason=f"keys rewritten as {norm(n.key)}: distinct outcomes may collide and overwrite each other")
 
 
+def _eq(a, b) -> bool:
+    """dict equality with symbolic values"""
+    if not isinstance(a, dict) or not isinstance(b, dict) or set(a) != set(b):
+        return False
+    return all(sp.simplify(sp.sympify(a[k]) - sp.sympify(b[k])) == 0 for k in a)
+
+
 def check_positional_selection(idx: Index, rep: Report):
+    """Histogram and post-selection functions folded on histograms whose bitstrings are made of *distinct marker characters* and whose
+    counts are positive symbols: the result shows exactly which positions are kept, in which order, and how counts combine - for every
+    histogram of that shape, independent of concrete bits and counts."""
     rule = "K9.positions"
-    f = idx.function(f"{HIST}::Histogram.remove_qubit_indices")
-    nb = [n for n in own_nodes(f.node) if isinstance(n, ast.Assign) and norm(n.targets[0]) == "new_bitstring"]
-    ok = bool(nb) and norm(nb[0].value) == "''.join([bitstring[qubit_i] for qubit_i in range(len(bitstring)) if qubit_i not in indices])"
-    rep.decide(ok, rule, f, nb[0] if nb else f.node, text="kept characters: positions not in indices, in order",
-               what="marginalising removes exactly the requested positions and keeps the others in order", reason=f"new bitstring {norm(nb[0].value) if nb else '?'}")
-    ok = any(isinstance(n, ast.Assign) and norm(n.targets[0]) == "self.counts" and norm(n.value) == "new_counts" for n in own_nodes(f.node))
-    rep.decide(ok, rule, f, f.node, text="counts replaced by the re-keyed counts", what="the marginal counts replace the old ones", reason="result not stored")
-    p = idx.function(f"{HIST}::Histogram.post_select")
-    txt = full(p.node)
-    inner = idx.function(f"{HIST}::Histogram.post_select.f_post_select")
-    itxt = full(inner.node)
-    ok = "for qubit_i, expected_bit in expected_outcomes.items()" in itxt and "if bitstring[qubit_i] != expected_bit: return False" in itxt and itxt.rstrip().endswith("return True")
-    rep.decide(ok, rule, inner, inner.node, text="keep a bitstring iff every expected position carries the expected character",
-               what="post-selection keeps exactly the outcomes matching all expected characters", reason="predicate changed")
-    ok = "new_hist = filter_hist(self, f_post_select)" in txt and "self.remove_qubit_indices(*list(expected_outcomes.keys()))" in txt and \
-        txt.index("filter_hist") < txt.index("self.remove_qubit_indices")
-    rep.decide(ok, rule, p, p.node, text="filter, then remove exactly the post-selected positions", what="the post-selected positions (and only those) are removed after filtering",
-               reason="order or arguments of filter / removal changed")
-    fr = idx.function(f"{HIST}::Histogram.frequencies")
-    ok = "counts / self.n_shots" in full(fr.node)
-    ns = idx.function(f"{HIST}::Histogram.n_shots")
-    ok = ok and "return sum(self.counts.values())" in full(ns.node)
-    rep.decide(ok, rule, fr, fr.node, text="frequencies = counts / sum(counts)", what="frequencies are normalised by the total count, so they sum to one",
-               reason="normalisation changed")
-    fh = idx.function(f"{HIST}::filter_hist")
-    ok = "{bitstring: counts for bitstring, counts in hist.counts.items() if function(bitstring, *args, **kwargs)}" in full(fh.node)
-    rep.decide(ok, rule, fh, fh.node, text="filter keeps entries unchanged", what="filtering keeps the selected entries with their counts", reason="filter comprehension changed")
-    ag = idx.function(f"{HIST}::aggregate_histograms")
-    ok = "sum([Counter({k: v for k, v in h.counts.items()}) for h in hists], Counter())" in full(ag.node)
-    rep.decide(ok, rule, ag, ag.node, text="aggregation = sum of Counters over all inputs", what="aggregating adds the counts of equal bitstrings over all histograms",
-               reason="aggregation expression changed")
+    from ..consteval import Folder, FuncVal, Raised, Undecidable
+    from ..rules import circuitsem as cs
+    c1, c2, c3 = sp.symbols("c1 c2 c3", positive=True)
+    tot = c1 + c2 + c3
+
+    def hist(fo, outcomes, **kw):
+        return fo.instantiate(fo.resolver("Histogram"), [dict(outcomes)], kw)
+
+    def method(fo, h, name, *args):
+        cv = h.cls_val
+        return fo.call_funcval(FuncVal(cv.methods[name], bound_self=h, home=cv.home), list(args), {})
+
+    def prop(fo, h, name):
+        cv = h.cls_val
+        return fo.call_funcval(FuncVal(cv.properties[name], bound_self=h, home=cv.home), [], {})
+    base = {"abcde": c1, "abXde": c2, "pqcst": c3}
+    hf = idx.function(f"{HIST}::Histogram.remove_qubit_indices")
+    try:
+        fo = cs.make_folder(idx, HIST)
+        h = hist(fo, base)
+        method(fo, h, "remove_qubit_indices", 2)
+        rep.decide(_eq(h.fields["counts"], {"abde": c1 + c2, "pqst": c3}), rule, hf, hf.node, text="remove position 2: 'abcde','abXde','pqcst' -> {'abde': c1+c2, 'pqst': c3}",
+                   what="marginalising removes exactly the requested position, keeps the others in order, and adds the counts of outcomes that coincide",
+                   reason=f"result {h.fields['counts']}")
+        h = hist(fo, base)
+        method(fo, h, "remove_qubit_indices", 0, 4)
+        rep.decide(_eq(h.fields["counts"], {"bcd": c1, "bXd": c2, "qcs": c3}), rule, hf, hf.node, text="remove positions 0 and 4 -> {'bcd', 'bXd', 'qcs'}",
+                   what="several positions are removed at once, the rest keeps its order", reason=f"result {h.fields['counts']}")
+        h = hist(fo, base)
+        rep.decide(sp.simplify(prop(fo, h, "n_shots") - tot) == 0, rule, hf, hf.node, text="n_shots = sum of counts", what="the total is the sum of all counts",
+                   reason=f"n_shots = {prop(fo, h, 'n_shots')}")
+        rep.decide(_eq(prop(fo, h, "frequencies"), {k: v / tot for k, v in base.items()}), rule, hf, hf.node, text="frequencies = counts / total",
+                   what="frequencies are counts normalised by the total, so they sum to one", reason=f"frequencies = {prop(fo, h, 'frequencies')}")
+        ps = idx.function(f"{HIST}::Histogram.post_select")
+        h = hist(fo, base)
+        method(fo, h, "post_select", {2: "c"})
+        rep.decide(_eq(h.fields["counts"], {"abde": c1, "pqst": c3}), rule, ps, ps.node, text="post-select position 2 == 'c' -> {'abde': c1, 'pqst': c3}",
+                   what="post-selection keeps exactly the outcomes carrying the expected character and then removes that position", reason=f"result {h.fields['counts']}")
+        h = hist(fo, base)
+        method(fo, h, "post_select", {0: "a", 2: "X"})
+        rep.decide(_eq(h.fields["counts"], {"bde": c2}), rule, ps, ps.node, text="post-select {0: 'a', 2: 'X'} -> {'bde': c2}",
+                   what="all expected characters must match; all post-selected positions are removed", reason=f"result {h.fields['counts']}")
+        init = idx.function(f"{HIST}::Histogram.__init__")
+        h = hist(fo, {"abc": c1, "xyz": c2}, msq_first=True)
+        rep.decide(_eq(h.fields["counts"], {"cba": c1, "zyx": c2}), rule, init, init.node, text="msq_first=True reverses every bitstring", what="bit-order conversion is the full reversal of each key, counts unchanged",
+                   reason=f"result {h.fields['counts']}")
+        h = hist(fo, {"abc": c1, "xyz": c2})
+        rep.decide(_eq(h.fields["counts"], {"abc": c1, "xyz": c2}), rule, init, init.node, text="default order keeps the keys", what="without conversion keys and counts are taken as given",
+                   reason=f"result {h.fields['counts']}")
+        try:
+            hist(fo, {"ab": c1, "abc": c2})
+            rep.violation(rule, init, init.node, text="inconsistent bitstring lengths refused", what="bitstrings of different lengths are refused", reason="accepted")
+        except Raised:
+            rep.ok(rule, init, init.node, text="inconsistent bitstring lengths refused", what="bitstrings of different lengths are refused")
+        ag = idx.function(f"{HIST}::aggregate_histograms")
+        fo3 = cs.make_folder(idx, HIST)
+        h1, h2 = hist(fo3, {"abc": c1, "xyz": c2}), hist(fo3, {"abc": c3, "uvw": c2})
+        r = fo3.run_function(ag.node, {"hists": (h1, h2)})
+        rep.decide(_eq(dict(r.fields["counts"]), {"abc": c1 + c3, "xyz": c2, "uvw": c2}), rule, ag, ag.node, text="aggregate: counts of equal bitstrings add up, others are kept",
+                   what="aggregation conserves every count", reason=f"result {r.fields['counts']}")
+        ok_in = _eq(h1.fields["counts"], {"abc": c1, "xyz": c2}) and _eq(h2.fields["counts"], {"abc": c3, "uvw": c2})
+        rep.decide(ok_in, rule, ag, ag.node, text="aggregate leaves its inputs unchanged", what="the inputs keep their counts", reason="an input histogram was modified")
+        fh = idx.function(f"{HIST}::filter_hist")
+    except Undecidable as e:
+        raise AnalysisError(f"histogram functions not foldable: {e}")
+    check_post_selection_functions(idx, rep, rule)
     bs = idx.function(f"{BOOT}::get_resampled_frequencies")
     t = full(bs.node)
     ok = "format_specifier = '0' + str(n_qubits) + 'b'" in t and "xk[i] = int(k, 2)" in t and "v / ncount" in t
     rep.decide(ok, rule, bs, bs.node, text="resampling: int(k, 2) <-> format(k, '0<n>b'), normalised by the number of draws",
                what="resampled outcomes are formatted back to bitstrings of the original length and normalised by the number of draws",
                reason="bitstring <-> integer conversion or normalisation changed")
+
+
+def check_post_selection_functions(idx: Index, rep: Report, rule: str):
+    """folded on marker bitstrings with symbolic frequencies (shared with C10.e)"""
+    from ..consteval import Undecidable
+    from ..rules import circuitsem as cs
+    c1, c2, c3 = sp.symbols("c1 c2 c3", positive=True)
+    tot = c1 + c2 + c3
+    base = {"abcde": c1, "abXde": c2, "pqcst": c3}
+    try:
+        sf = idx.function(f"{POST}::split_frequency_dict")
+        fo2 = cs.make_folder(idx, POST)
+        mid, fin = fo2.run_function(sf.node, {"frequencies": dict(base), "indices": [0, 1], "desired_measurement": None})
+        ok = _eq(mid, {"ab": (c1 + c2) / tot, "pq": c3 / tot}) and _eq(fin, {"cde": c1 / tot, "Xde": c2 / tot, "cst": c3 / tot})
+        rep.decide(ok, rule, sf, sf.node, text="split at positions [0, 1]: mid-circuit part keeps positions 0-1, final part the rest, both normalised",
+                   what="the joint distribution is split into the marginal on the given positions and the marginal on the complement", reason=f"got {mid} / {fin}")
+        fo2 = cs.make_folder(idx, POST)
+        mid, fin = fo2.run_function(sf.node, {"frequencies": dict(base), "indices": [0, 1], "desired_measurement": "ab"})
+        ok = _eq(mid, {"ab": (c1 + c2) / tot, "pq": c3 / tot}) and _eq(fin, {"cde": c1 / (c1 + c2), "Xde": c2 / (c1 + c2)})
+        rep.decide(ok, rule, sf, sf.node, text="split with requested outcome 'ab': final part is post-selected on it and renormalised",
+                   what="with a requested mid-circuit outcome the final distribution is the renormalised branch distribution", reason=f"got {mid} / {fin}")
+        sl = idx.function(f"{POST}::split_frequency_dict_for_last_n_digits")
+        fo2 = cs.make_folder(idx, POST)
+        f1, f2 = fo2.run_function(sl.node, {"frequencies": {"abcde": c1, "abXde": c2, "pqcde": c3}, "n": 2})
+        ok = _eq(f1, {"abc": c1, "abX": c2, "pqc": c3}) and _eq(f2, {"de": tot})
+        rep.decide(ok, rule, sl, sl.node, text="last-2 split: heads keep their counts, equal tails accumulate", what="splitting off the last n characters conserves the total on both sides",
+                   reason=f"got {f1} / {f2}")
+        pf = idx.function(f"{POST}::post_select")
+        fo2 = cs.make_folder(idx, POST)
+        r = fo2.run_function(pf.node, {"freqs": dict(base), "expected_outcomes": {4: "e"}})
+        ok = _eq(r, {"abcd": c1 / (c1 + c2), "abXd": c2 / (c1 + c2)})
+        rep.decide(ok, rule, pf, pf.node, text="post_select({4: 'e'}) keeps matching outcomes, removes the position, renormalises", what="post-selected frequencies are renormalised over the kept outcomes",
+                   reason=f"got {r}")
+        st = idx.function(f"{POST}::strip_post_selection")
+        fo2 = cs.make_folder(idx, POST)
+        r = fo2.run_function(st.node, {"freqs": dict(base), "qubits": (2,)})
+        ok = _eq(r, {"abde": (c1 + c2) / tot, "pqst": c3 / tot})
+        rep.decide(ok, rule, st, st.node, text="strip_post_selection(2) marginalises position 2", what="stripping an ancilla aggregates the outcomes that differ only there", reason=f"got {r}")
+    except Undecidable as e:
+        raise AnalysisError(f"post-selection functions not foldable: {e}")
 
 
 def check_hist_purity(idx: Index, rep: Report, an: Analyzer):
